@@ -292,6 +292,60 @@ func runC04(r *Run) {
 	}
 	r.Floor("R4", "grant writes reachable from authorization handlers", nGW, 6)
 
+	// ---------- R9 ----------
+	r.Rule("R9", "PATH.limit-before-effect: the grant check that staking spend handlers run before the Cosmos-side effect (every precompiles/authorization function that reads the grant with GetAuthorization and returns a *StakeAuthorization) returns success only over the edge on which the grant has no limit (MaxTokens == nil) or the requested amount is not greater than MaxTokens.Amount — Accept after the effect rejects an overspend too, but only after the message server has already moved the funds, which persists when the calling contract swallows the failure (C05)")
+	nLim := 0
+	for _, fn := range P.Funcs {
+		if !pathHasSuffix(fnPkgPath(fn), "precompiles/authorization") || fn.Synthetic != "" || fn.Parent() != nil || isTestSupport(P, fn) {
+			continue
+		}
+		res := fn.Signature.Results()
+		retStake := false
+		for i := 0; i < res.Len(); i++ {
+			if namedName(res.At(i).Type()) == "StakeAuthorization" {
+				retStake = true
+			}
+		}
+		if !retStake || len(findCalls(fn, anyMethod("GetAuthorization"))) == 0 {
+			continue
+		}
+		nLim++
+		isMaxTokens := func(v ssa.Value) bool {
+			return backSlice(v).HasField("StakeAuthorization", "MaxTokens")
+		}
+		// edges on which the limit cannot be exceeded
+		nilEq, _ := condEdges(fn, func(x, y ssa.Value) bool { return isMaxTokens(x) && isNilConst(y) })
+		within, _ := guardPassEdges(fn, func(cond ssa.Value) (bool, bool) {
+			c, ok := cond.(*ssa.Call)
+			if !ok {
+				return false, false
+			}
+			ci := callInfo(c)
+			args := callArgs(c)
+			if len(args) != 2 {
+				return false, false
+			}
+			amtFirst := backSlice(args[0]).HasParam("amount") && isMaxTokens(args[1])
+			limFirst := isMaxTokens(args[0]) && backSlice(args[1]).HasParam("amount")
+			switch {
+			case ci.Name == "GT" && amtFirst, ci.Name == "LT" && limFirst:
+				return false, true // passes on the false edge
+			case ci.Name == "LTE" && amtFirst, ci.Name == "GTE" && limFirst:
+				return true, true
+			}
+			return false, false
+		})
+		inst := fnID(fn) + "#amount-within-limit"
+		if len(within) == 0 {
+			r.Bad("R9", inst, P.Pos(fnPos(fn)), "the grant check no longer compares the requested amount with the grant's MaxTokens: an overspend is only rejected by Accept after the staking message has executed")
+			continue
+		}
+		w := PathQuery{Fn: fn, Target: isSuccessExit, DelEdge: edgeSet(append(append([]Edge{}, nilEq...), within...))}.Search()
+		r.Check(w == nil, "R9", inst, P.Pos(fnPos(fn)), "success only where MaxTokens == nil or amount <= MaxTokens.Amount",
+			"the grant check can succeed without having compared the requested amount with the grant's limit", P.witness(w)...)
+	}
+	r.Floor("R9", "grant checks returning a StakeAuthorization", nLim, 1)
+
 	// ---------- R8 ----------
 	r.Rule("R8", "OWN/SHAPE.limit-stays-limited: precompile code changes the limit of an existing staking grant only through `MaxTokens.Amount = MaxTokens.Amount.Sub(coin.Amount)` (decreaseAllowance) and `.Add(coin.Amount)` (increaseAllowance); it never stores the MaxTokens pointer itself — a nil MaxTokens means an unlimited grant, so replacing the pointer can turn a used-up limit into no limit")
 	nAmt := 0
